@@ -13,7 +13,7 @@ import common
 NUM_ALPHABET = ["1", "0", "9", "-", "+", ".", "e", "_", " ", "n", "a", "i", "f", "٣", "\xa0", "E"]
 NUM_LIST = ["nan", "NaN", "NAN", "inf", "-inf", "+inf", "Inf", "INF", "infinity", "-Infinity", "1e999", "1e309", "2e308", "1e308", "1.8e308", "1.7e308", "9e307",
             "-1e999", "1e-999", "0e999", "1_0", "1__0", "_1", "1_", "1_0.0_1", "１２", "1.5", "01", "+5", "-0", "1.", ".5", ".", "-", "+", "e5", "1e", "1e+", "1 2",
-            "1,000", "0x10", "1e5", "12.345", "99999999", "123456789012", "", " ", "\t7\t", " 3.50 ", "3.5.1", "--1", "+-1", "1-", "٣", "٣.٥", "1e٣", "nan0", "infx", "in", "na"]
+            "1,000", "1,00", ",100", "1,0000", "12,345,678", "1,234.5", "$5", "-$5", "$-5", "$", "$1,000.25", "1,,000", "0x10", "1e5", "12.345", "99999999", "123456789012", "", " ", "\t7\t", " 3.50 ", "3.5.1", "--1", "+-1", "1-", "٣", "٣.٥", "1e٣", "nan0", "infx", "in", "na"]
 BOOL_ALPHABET = ["y", "e", "s", "n", "o", "1", "0", " ", "t", "Y", "f"]
 BOOL_LIST = ["yes", "Yes", "YES", " y ", "no", "N", "true", "True", "FALSE", "on", "off", "ON", "1", "0", "", "2", "yess", "ye", "nope", "tru", "01", "y e s", "да", "ｙ", "10", "00", "t", "f"]
 
